@@ -620,7 +620,7 @@ theorem no_entries_without_session (st : State) (h : RefInv st) (c : Nat) (hc : 
   rw [this] at hmem; cases hmem
 
 /-- cause 5 without the side condition "the server still holds the session object": in every reachable state (RefInv) -/
-theorem no_notification_after_session_loss_run' (st : State) (c : Nat) (evs : List Event) (h : RefInv st) (r tok : Nat)
+theorem no_notification_after_session_loss_run_any (st : State) (c : Nat) (evs : List Event) (h : RefInv st) (r tok : Nat)
     (hne : ∀ e ∈ evs, ¬ isRegOf e c r tok) :
     ∀ out ∈ (run st (.lost c :: evs)).2, ¬ NoteTo out r c tok := by
   cases hc : st.sess c with
@@ -639,7 +639,7 @@ theorem no_notification_after_session_loss_run' (st : State) (c : Nat) (evs : Li
 
 example : ∀ out ∈ (run (run runStart [.reg 0 0 1 0 true 1, .chg 0, .adv 0]).1 [.lost 0, .chg 0, .adv 0, .adv 40000, .lost 0, .chg 0, .adv 0]).2,
     ¬ NoteTo out 0 0 1 :=
-  no_notification_after_session_loss_run' _ 0 _ (run_refInv _ _ (by decide) (init_refInv _ _ (by decide))) 0 1 (by decide)
+  no_notification_after_session_loss_run_any _ 0 _ (run_refInv _ _ (by decide) (init_refInv _ _ (by decide))) 0 1 (by decide)
 
 /-- cause 6, resource deletion: after the `.del` step (which writes the 4.04 goodbyes, `goodbye_on_resource_deletion`) nothing
     is ever written about r again — for every session and token, over ANY continuation, registration attempts included -/
